@@ -1,6 +1,6 @@
 // vtrans — translator from the side-effect-free int64 kernels of the Go library to Gallina over Z.
 //
-//	vtrans -repo <tree> -out <Generated.v> [-outf <GeneratedF.v>]
+//	vtrans -repo <tree> -out <Generated.v> [-outf <GeneratedF.v>] [-out64 <Generated64.v>]
 //
 // The float64 kernels (float.go) go to the second file, module SIDGen.GeneratedF, on Coq primitive floats.
 //
@@ -142,6 +142,8 @@ type translator struct {
 	hints      []string
 
 	rejected []rejection // definitions that could not be produced (the rest is written)
+	m64      bool        // int64 mode (int64.go): every operation goes through the wrapping vocabulary of I64.v
+	sinkFile string      // name of the output file this translator's definitions go to (for the rejection lines)
 
 	// float file (float.go)
 	fused    map[string]bool
@@ -343,6 +345,7 @@ type typ struct {
 	name   string   // struct name
 	fields []string // struct fields
 	ftypes []typ    // float mode: types of the fields (nil: all int64)
+	m      bool     // int64 mode: the code of this expression is a computation (I64.M), not a value
 }
 
 func (a typ) String() string {
@@ -451,10 +454,14 @@ type fctx struct {
 	prefix  bool
 	body    *ast.BlockStmt
 	// float mode (float.go)
-	fmode   bool
-	partial bool     // the definition is a slice or a loop body: no return statement is translated
-	libm    bool     // a libm function (or a callee that takes the record) is used
-	recvOut []string // pointer receiver: Coq names of its fields, returned in front of the results
+	fmode         bool
+	partial       bool     // the definition is a slice or a loop body: no return statement is translated
+	lenient       bool     // struct types: fields that are neither int64 nor float64 are left out instead of rejecting the type
+	intPow        bool     // float-mode machinery used for an integer kernel: int64(math.Pow(2, float64(e))) is the integer idiom
+	tmpCnt        int      // int64 mode: counter of the names of intermediate results
+	unsignedCount bool     // int64 mode: the shift count just translated was wrapped in uint64(..)
+	libm          bool     // a libm function (or a callee that takes the record) is used
+	recvOut       []string // pointer receiver: Coq names of its fields, returned in front of the results
 }
 
 func (c *fctx) fail(n ast.Node, format string, a ...interface{}) {
@@ -691,7 +698,17 @@ func isNil(sc *scope, e ast.Expr) bool {
 
 // shift counts may be wrapped in an unsigned conversion
 func (c *fctx) shiftCount(sc *scope, e ast.Expr) (string, typ) {
+	c.unsignedCount = false
 	if call, ok := unparen(e).(*ast.CallExpr); ok && len(call.Args) == 1 && isConv(sc, call.Fun, "uint64", "uint", "uint32", "uint8", "uint16") {
+		if c.t.m64 {
+			// int64 mode: uint64(s) of a negative s is a count of 2^64 + s, not a panic; narrower conversions truncate: not modelled
+			if !isConv(sc, call.Fun, "uint64", "uint") {
+				c.fail(e, "shift count converted to %s (int64 mode models uint64(..) / uint(..) only)", exprString(call.Fun))
+			}
+			code, t := c.expr(sc, call.Args[0])
+			c.unsignedCount = true
+			return code, t
+		}
 		return c.expr(sc, call.Args[0])
 	}
 	return c.expr(sc, e)
@@ -700,6 +717,9 @@ func (c *fctx) shiftCount(sc *scope, e ast.Expr) (string, typ) {
 func (c *fctx) binary(n ast.Node, op token.Token, a string, ta typ, b string, tb typ) (string, typ) {
 	if ta.k == kF || tb.k == kF {
 		return c.fbinary(n, op, a, ta, b, tb)
+	}
+	if c.t.m64 {
+		return c.binary64(n, op, a, ta, b, tb)
 	}
 	if f, ok := arith[op]; ok {
 		if ta.k != kZ || tb.k != kZ {
@@ -772,6 +792,9 @@ func (c *fctx) expr(sc *scope, e ast.Expr) (string, typ) {
 		c.fail(e, "%s literal %s", strings.ToLower(x.Kind.String()), x.Value)
 	case *ast.UnaryExpr:
 		a, ta := c.expr(sc, x.X)
+		if c.t.m64 {
+			return c.unary64(e, x.Op, a, ta)
+		}
 		switch {
 		case x.Op == token.SUB && ta.k == kZ:
 			return "(Z.opp " + a + ")", ta
@@ -846,6 +869,9 @@ func (c *fctx) call(sc *scope, x *ast.CallExpr) (string, typ) {
 	}
 	if isConv(sc, x.Fun, "int64") && len(x.Args) == 1 {
 		if c.isFloatExpr(sc, x.Args[0]) {
+			if c.t.m64 {
+				return c.pow64(sc, x.Args[0])
+			}
 			return c.floatInt(sc, x.Args[0]), typ{k: kZ}
 		}
 		a, ta := c.expr(sc, x.Args[0])
@@ -864,7 +890,9 @@ func (c *fctx) call(sc *scope, x *ast.CallExpr) (string, typ) {
 	if s.results[0].k == kStruct {
 		c.fail(x, "call of %s returning a struct used as a value", exprString(x.Fun))
 	}
-	return code, s.results[0]
+	rt := s.results[0]
+	rt.m = c.t.m64
+	return code, rt
 }
 
 func (c *fctx) isErrorCtor(sc *scope, x *ast.CallExpr) bool {
@@ -918,10 +946,19 @@ func (c *fctx) callTranslated(sc *scope, x *ast.CallExpr) (string, *sig) {
 		c.libm = true
 		code += " " + libmVar
 	}
+	pre := ""
 	for i, a := range x.Args {
 		ac, ta := c.exprAs(sc, a, s.params[i])
-		_ = ta
+		if ta.m {
+			// int64 mode: an argument that is a computation is run first, in the order of the arguments
+			n := c.tmp()
+			pre += n + " <- " + ac + " ;; "
+			ac = n
+		}
 		code += " " + ac
+	}
+	if pre != "" {
+		return "(" + pre + code + "))", s
 	}
 	return code + ")", s
 }
@@ -979,11 +1016,12 @@ func (c *fctx) block(ss []ast.Stmt, sc *scope, k func() string) string {
 		if v == nil || v.t.k != kZ {
 			c.fail(s, "%s on %s", x.Tok, id.Name)
 		}
-		f := "Z.add"
+		op := token.ADD
 		if x.Tok == token.DEC {
-			f = "Z.sub"
+			op = token.SUB
 		}
-		return "let " + v.coq + " := (" + f + " " + v.coq + " 1) in\n" + next()
+		code, t := c.binary(s, op, v.coq, v.t, "1", typ{k: kZ})
+		return c.let(v.coq, code, t) + next()
 	case *ast.DeclStmt:
 		gd, ok := x.Decl.(*ast.GenDecl)
 		if !ok {
@@ -1026,9 +1064,9 @@ func (c *fctx) block(ss []ast.Stmt, sc *scope, k func() string) string {
 			for i, n := range vs.Names {
 				name := "_"
 				if n.Name != "_" {
-					name = c.declare(sc, n, types[i]).coq
+					name = c.declare(sc, n, pureT(types[i])).coq
 				}
-				out += "let " + name + " := " + codes[i] + " in\n"
+				out += c.let(name, codes[i], types[i])
 			}
 		}
 		return out + next()
@@ -1064,6 +1102,11 @@ func (c *fctx) block(ss []ast.Stmt, sc *scope, k func() string) string {
 		default:
 			c.fail(x.Else, "else branch of kind %s", nodeKind(x.Else))
 		}
+		if tc.m {
+			n := c.tmp()
+			pre += n + " <- " + cond + " ;;\n"
+			cond = n
+		}
 		return pre + "if " + cond + "\nthen (" + thenCode + ")\nelse (" + elseCode + ")"
 	case *ast.ReturnStmt:
 		if c.prefix {
@@ -1087,6 +1130,7 @@ func (c *fctx) block(ss []ast.Stmt, sc *scope, k func() string) string {
 
 func (c *fctx) ret(x *ast.ReturnStmt, sc *scope) string {
 	var rs []string
+	pre := ""
 	if len(x.Results) == 0 {
 		if c.named == nil {
 			if len(c.results) == 0 {
@@ -1101,7 +1145,7 @@ func (c *fctx) ret(x *ast.ReturnStmt, sc *scope) string {
 			}
 			rs = append(rs, v.coq)
 		}
-		return tuple(append(append([]string{}, c.recvOut...), rs...))
+		return c.retValue(tuple(append(append([]string{}, c.recvOut...), rs...)))
 	}
 	if len(x.Results) == 1 && len(c.results) > 1 {
 		if c.recvOut != nil {
@@ -1134,10 +1178,15 @@ func (c *fctx) ret(x *ast.ReturnStmt, sc *scope) string {
 			rs = append(rs, c.structLit(sc, r, c.results[i]))
 			continue
 		}
-		code, _ := c.exprAs(sc, r, c.results[i])
+		code, tr := c.exprAs(sc, r, c.results[i])
+		if tr.m {
+			n := c.tmp()
+			pre += n + " <- " + code + " ;;\n"
+			code = n
+		}
 		rs = append(rs, code)
 	}
-	return tuple(append(append([]string{}, c.recvOut...), rs...))
+	return pre + c.retValue(tuple(append(append([]string{}, c.recvOut...), rs...)))
 }
 
 // &T{f: e, ...} or T{f: e, ...} with keyed int64 fields -> tuple in declaration order
@@ -1161,7 +1210,10 @@ func (c *fctx) structLit(sc *scope, e ast.Expr, t typ) string {
 			if i >= len(t.fields) || len(cl.Elts) != len(t.fields) {
 				c.fail(e, "positional composite literal with %d of %d fields", len(cl.Elts), len(t.fields))
 			}
-			code, _ := c.exprAs(sc, el, typ{k: kZ})
+			code, tf := c.exprAs(sc, el, typ{k: kZ})
+			if tf.m {
+				c.fail(el, "arithmetic inside a composite literal (int64 mode: assign it to a variable first)")
+			}
 			vals[t.fields[i]] = code
 			continue
 		}
@@ -1176,7 +1228,10 @@ func (c *fctx) structLit(sc *scope, e ast.Expr, t typ) string {
 		if _, dup := vals[key.Name]; !found || dup {
 			c.fail(e, "composite literal field %s", key.Name)
 		}
-		code, _ := c.exprAs(sc, kv.Value, typ{k: kZ})
+		code, tf := c.exprAs(sc, kv.Value, typ{k: kZ})
+		if tf.m {
+			c.fail(kv.Value, "arithmetic inside a composite literal (int64 mode: assign it to a variable first)")
+		}
 		vals[key.Name] = code
 	}
 	var rs []string
@@ -1216,8 +1271,8 @@ func (c *fctx) assign(x *ast.AssignStmt, sc *scope) string {
 		} else {
 			b, tb = c.expr(sc, x.Rhs[0])
 		}
-		code, _ := c.binary(x, op, v.coq, v.t, b, tb)
-		return "let " + v.coq + " := " + code + " in\n"
+		code, tcode := c.binary(x, op, v.coq, v.t, b, tb)
+		return c.let(v.coq, code, tcode)
 	}
 	if x.Tok != token.ASSIGN && x.Tok != token.DEFINE {
 		c.fail(x, "assignment operator %s", x.Tok)
@@ -1243,6 +1298,7 @@ func (c *fctx) assign(x *ast.AssignStmt, sc *scope) string {
 	var codes []string
 	var types []typ
 	var rhs string
+	rhsM, preM := false, "" // int64 mode: rhs is a computation; computations to run before
 	// expected types of the positions that already have one (gives `nil` its meaning)
 	want := make([]*typ, len(ids))
 	for i, id := range ids {
@@ -1272,6 +1328,18 @@ func (c *fctx) assign(x *ast.AssignStmt, sc *scope) string {
 			}
 			codes, types = append(codes, code), append(types, t)
 		}
+		// int64 mode: the right-hand sides that are computations run first, left to right
+		for i := range codes {
+			if types[i].m {
+				if len(codes) == 1 {
+					rhsM = true
+					break
+				}
+				n := c.tmp()
+				preM += n + " <- " + codes[i] + " ;;\n"
+				codes[i] = n
+			}
+		}
 		rhs = tuple(codes)
 	case len(x.Rhs) == 1:
 		call, ok := unparen(x.Rhs[0]).(*ast.CallExpr)
@@ -1288,6 +1356,7 @@ func (c *fctx) assign(x *ast.AssignStmt, sc *scope) string {
 			}
 		}
 		rhs, types = code, s.results
+		rhsM = c.t.m64
 	default:
 		c.fail(x, "assignment of %d values to %d variables", len(x.Rhs), len(ids))
 	}
@@ -1302,7 +1371,7 @@ func (c *fctx) assign(x *ast.AssignStmt, sc *scope) string {
 		if x.Tok == token.DEFINE {
 			v = sc.vars[id.Name] // `:=` re-uses only variables of the same scope
 			if v == nil {
-				v = c.declare(sc, id, types[i])
+				v = c.declare(sc, id, pureT(types[i]))
 				fresh++
 			}
 		} else {
@@ -1326,7 +1395,10 @@ func (c *fctx) assign(x *ast.AssignStmt, sc *scope) string {
 			}
 		}
 	}
-	return "let " + pattern(names) + " := " + rhs + " in\n"
+	if rhsM {
+		return preM + pattern(names) + " <- " + rhs + " ;;\n"
+	}
+	return preM + "let " + pattern(names) + " := " + rhs + " in\n"
 }
 
 // the loop `for v := first; v <= last; v++ { .. }` that produces the output of a prefix-mode function
@@ -1353,7 +1425,7 @@ func (c *fctx) resultLoop(x *ast.ForStmt, sc *scope) string {
 		c.fail(x, "result loop bounds that are not int64")
 	}
 	if cond.Op == token.LSS {
-		last = "(Z.sub " + last + " 1)"
+		last, tl = c.binary(x, token.SUB, last, tl, "1", typ{k: kZ})
 	}
 	post, ok := x.Post.(*ast.IncDecStmt)
 	if !ok || post.Tok != token.INC {
@@ -1390,7 +1462,18 @@ func (c *fctx) resultLoop(x *ast.ForStmt, sc *scope) string {
 		}
 		return true
 	})
-	return tuple([]string{first, last})
+	pre := ""
+	if tf.m {
+		n := c.tmp()
+		pre += n + " <- " + first + " ;;\n"
+		first = n
+	}
+	if tl.m {
+		n := c.tmp()
+		pre += n + " <- " + last + " ;;\n"
+		last = n
+	}
+	return pre + c.retValue(tuple([]string{first, last}))
 }
 
 // ---------------------------------------------------------------------------------------------------------------
@@ -1551,6 +1634,9 @@ func (t *translator) function(tg target, from ast.Node) *sig {
 	retType := strings.Join(rts, " * ")
 	if len(rts) > 1 {
 		retType = "(" + retType + ")%type"
+	}
+	if t.m64 {
+		retType = "(M " + retType + ")"
 	}
 	// the function body lives in a scope below the parameters (Go: same scope; a redeclaration would not compile)
 	body := c.block(fd.Body.List, c.top, func() string {
@@ -1962,15 +2048,27 @@ func modulePath(root string) string {
 	return ""
 }
 
-func run(repo, out, outF string) {
+func newTranslator(module string) *translator {
+	return &translator{module: module, pkgs: map[string]*pkgInfo{}, used: map[string]bool{}, constType: map[string]typ{}, constGo: map[string]string{},
+		globals: map[string]string{}, sigs: map[string]*sig{}, inProgress: map[string]bool{},
+		fused: map[string]bool{}, fglobals: map[string]string{}, fsigs: map[string]*sig{}}
+}
+
+// a translator with its own output that shares the parsed packages
+func (t *translator) sub(m64 bool) *translator {
+	r := newTranslator(t.module)
+	r.pkgs = t.pkgs
+	r.m64 = m64
+	return r
+}
+
+func run(repo, out, outF, out64 string) {
 	abs, err := filepath.Abs(repo)
 	if err != nil {
 		failf("%v", err)
 	}
 	repoRoot = abs
-	t := &translator{module: modulePath(abs), pkgs: map[string]*pkgInfo{}, used: map[string]bool{}, constType: map[string]typ{}, constGo: map[string]string{},
-		globals: map[string]string{}, sigs: map[string]*sig{}, inProgress: map[string]bool{},
-		fused: map[string]bool{}, fglobals: map[string]string{}, fsigs: map[string]*sig{}}
+	t := newTranslator(modulePath(abs))
 
 	// constants; every unit that is rejected is left out and reported, the others are written
 	t.try(intFile, "the constants of "+constsPkg, func() {
@@ -1991,6 +2089,20 @@ func run(repo, out, outF string) {
 	for _, tg := range targets {
 		tg := tg
 		t.try(intFile, tg.coqName(), func() { t.function(tg, nil) })
+	}
+	// integer kernels found by their role (float.go's machinery over Z), in a translator of their own that shares the parsed packages
+	tz := t.sub(false)
+	tz.runExtracted(intFile)
+	for f := range tz.fused {
+		t.used[f] = true
+	}
+	t.rejected = append(t.rejected, tz.rejected...)
+	// the same kernels in int64 mode
+	var text64 string
+	if out64 != "" {
+		t64 := t.sub(true)
+		text64 = t64.run64(abs)
+		t.rejected = append(t.rejected, t64.rejected...)
 	}
 
 	var files []string
@@ -2025,9 +2137,14 @@ func run(repo, out, outF string) {
 		b.WriteString(f)
 		b.WriteString("\n")
 	}
+	b.WriteString("(* ---- values found by their role in the function (see TRANSLATOR-NOTES.md) ---- *)\n")
+	for _, f := range tz.ffuncs {
+		b.WriteString(f)
+		b.WriteString("\n")
+	}
 	b.WriteString("(* every definition of this file, for `autounfold with sidgen` *)\n")
 	b.WriteString("Create HintDb sidgen.\n")
-	for _, h := range t.hints {
+	for _, h := range append(append([]string{}, t.hints...), tz.fhints...) {
 		fmt.Fprintf(&b, "#[global] Hint Unfold %s : sidgen.\n", h)
 	}
 	// the float file is produced before anything is written
@@ -2041,6 +2158,11 @@ func run(repo, out, outF string) {
 	if outF != "" {
 		if err := os.WriteFile(outF, []byte(textF), 0o644); err != nil {
 			failf("cannot write %s: %v", outF, err)
+		}
+	}
+	if out64 != "" {
+		if err := os.WriteFile(out64, []byte(text64), 0o644); err != nil {
+			failf("cannot write %s: %v", out64, err)
 		}
 	}
 	if len(t.rejected) > 0 {
@@ -2057,9 +2179,10 @@ func main() {
 	repo := flag.String("repo", "", "root of the Go source tree")
 	out := flag.String("out", "", "Coq file to write (integer kernels and constants)")
 	outF := flag.String("outf", "", "Coq file to write (float64 kernels); optional")
+	out64 := flag.String("out64", "", "Coq file to write (the integer kernels with Go's int64 semantics); optional")
 	flag.Parse()
 	if *repo == "" || *out == "" || flag.NArg() != 0 {
-		fmt.Fprintln(os.Stderr, "usage: vtrans -repo <tree> -out <Generated.v> [-outf <GeneratedF.v>]")
+		fmt.Fprintln(os.Stderr, "usage: vtrans -repo <tree> -out <Generated.v> [-outf <GeneratedF.v>] [-out64 <Generated64.v>]")
 		os.Exit(2)
 	}
 	defer func() {
@@ -2071,5 +2194,5 @@ func main() {
 			panic(r)
 		}
 	}()
-	run(*repo, *out, *outF)
+	run(*repo, *out, *outF, *out64)
 }
